@@ -1,7 +1,7 @@
 (** C08 — domain of the theorems: unique note ids, a well-formed confirmations policy,
     non-negative values and heights. *)
 From V.Lib Require Import Base.
-From V.C08 Require Import Sql Model Spec Corr.
+From V.C08 Require Import Sql Model ModelT Spec Corr.
 Local Open Scope Z_scope.
 
 Definition wf_policy (pol : policy) : bool := (1 <=? p_trusted pol) && (p_trusted pol <=? p_untrusted pol).
@@ -23,4 +23,6 @@ Definition wf_case (c : case) : bool :=
   | CSelect db e _ _ _ pol _ _ _ => wf_db db && wf_policy pol && (0 <=? e_target e) && distinct_positions db
   | CPropose db e _ pay _ _ _ pol _ _ _ _ _ => wf_db db && wf_policy pol && (0 <=? e_target e) && (0 <=? pay) && distinct_positions db
   | CLock db _ _ _ _ _ _ => wf_db db
+  | CTSelect udb _ _ pol _ _ _ _ => nodup_z (map u_id udb) && wf_policy pol
+  | CShield udb e _ _ pol _ _ _ _ _ _ _ => nodup_z (map u_id udb) && wf_policy pol && (0 <=? e_target e)
   end.
